@@ -68,3 +68,16 @@ Theorem shift_lattice :
     shift_point_ok s (Nat.iter a (fun i => (i + 1)%uint63) 1%uint63) (inat k) = true.
 Proof. exact (sweep_shift_sound shift_point_ok shift_lattice_true). Qed.
 Print Assumptions shift_lattice.
+
+(* (3) why the step of a float time has to be round((t - start)/dt) and not a difference of two roundings: the
+   "precomputed offset" form round(t/dt) - round(start/dt) agrees with it when start is a multiple of dt or t lies on
+   the grid, and is NOT invariant under a shift of the origin otherwise (the variant a seeded change introduced
+   into Control.get_controls): t = 0.23, dt = 0.1, start = 0 is step 2; shifted by 0.04 it becomes step 3, while
+   the formula of the code assigns step 2 in both cases *)
+Definition step_split (dt start t : float) : float := rint (t / dt) - rint (start / dt).
+Theorem split_round_refuted :
+  exists dt start t tau : float,
+    PrimFloat.eqb (step_split dt (start + tau) (t + tau)) (step_split dt start t) = false /\
+    PrimFloat.eqb (step_f dt (start + tau) (t + tau)) (step_f dt start t) = true.
+Proof. exists (1 / 10), 0, (23 / 100), (4 / 100). split; vm_compute; reflexivity. Qed.
+Print Assumptions split_round_refuted.
